@@ -133,7 +133,7 @@ def conclude(ctx, result, wall):
         replay_paths.append((sig, path, w["what"]))
     inconclusive = list(result.get("inconclusive", []))
     # required observations: a run that did not see what it claims to watch is not a pass
-    for key, minimum in meta.get("required", {}).items():
+    for key, minimum in ({} if ctx.replay else meta.get("required", {})).items():
         got = result.get("counters", {}).get(key, 0)
         if got < minimum:
             inconclusive.append("required observation %s: saw %d, need >= %d" % (key, got, minimum))
@@ -182,6 +182,9 @@ def conclude(ctx, result, wall):
     if inconclusive:
         print("INCONCLUSIVE property=%s reason=%s" % (pid, "; ".join(inconclusive)[:2000]))
         return 2
+    if ctx.replay:
+        print("REPLAY property=%s: the recorded case does not violate the property on the current tree (%d evaluations)" % (pid, result.get("evaluations", 0)))
+        return 0
     print("OK property=%s tier=%s seed=%d evaluations=%d distinct_nontrivial=%d wall=%.1fs" % (
         pid, ctx.tier, ctx.seed, result.get("evaluations", 0), result.get("distinct_nontrivial", 0), wall))
     return 0
@@ -758,9 +761,9 @@ PROPS = {
         {"pairs_checked": 20000, "trees_traversed": 20000, "tokens_traversed": 50000}),
     "C16": harness_prop(
         "C16", "runtime monitor: generated getters (emit_rule_reference) vs mention labels recorded by the reference interpreter",
-        "For every accepted case every generated getter of the entry rule is called and flattened (Vec-major, tuple-slot-minor); node count and spans must equal the matches refpeg committed directly in the rule's own expression in derivation order, and the static Option/Vec/tuple shape must equal the shape computed from the optimized expression.",
+        "For every accepted case every generated getter of the entry rule is called and flattened (Vec-major, tuple-slot-minor); node count and spans must equal the matches refpeg committed directly in the rule's own expression in derivation order, the static Option/Vec/tuple shape must equal the shape computed from the optimized expression, and the addresses of the nodes handed out must be, in order, the addresses of the nodes the structure walker reaches inside the rule's content (identity, independent of the model).",
         "only compared when verdict/offset agree with the model; a getter missing from the generated code is a build error attributed to the derive expansion",
-        {"getters_called": 50000, "getters_with_nodes": 20000}),
+        {"getters_called": 50000, "getters_with_nodes": 20000, "getter_identity_checks": 50000}),
     "C17": harness_prop(
         "C17", "generated structure walker calling every accessor of choices / sequences / repetitions / leaves; event list vs the reference interpreter's derivation",
         "vgen emits, per rule, code that calls _k(), if_then/else_if/else_then, reference(), consume(), match_choices!, get_matched/get_all/as_ref/into_matched, iter_matched/iter_all/into_iter_matched and the content/span fields of every leaf kind on the parsed tree; accessor-internal contradictions are findings on the spot and the resulting event list (alternative index, iteration counts, skip item counts, leaf characters/spellings/NEWLINE kinds/PEEK-POP-skip texts) must equal refpeg's derivation events.",
